@@ -439,3 +439,28 @@ def api_payload_validation(action: int, pi: int, absent: bool) -> bool:
     if action == 2 and (p is None or p == ""):
         return code == 400                                                 # treated as "output missing"
     return code == 400 and isinstance(v, dict) and v.get("__type") == err
+
+
+@condition(timeout={"quick": 60, "thorough": 120}, functions=["StateEngine.notify (execution history limit guard)", "handle_error (the limit error is not interceptable)"])
+def history_limit_not_interceptable(n: int, how: int) -> bool:
+    """
+    requires: 1 <= n <= 25004 and 0 <= how < 3
+    ensures: _
+    """
+    # "an execution whose history exceeds 25000 events is failed rather than growing without bound": a catch-all
+    # Catcher (how 1) or Retrier (how 2) on the state at which the limit is noticed must not keep the execution alive
+    t = {"Type": "Task", "Resource": "arn:aws:rpcmessage:local::function:f", "Next": "N"}
+    if how == 1:
+        t["Catch"] = [{"ErrorEquals": ["States.ALL"], "Next": "T"}]
+    elif how == 2:
+        t["Retry"] = [{"ErrorEquals": ["States.ALL"], "IntervalSeconds": 1, "MaxAttempts": 99999999}]
+    asl = {"StartAt": "T", "States": {"T": t, "N": {"Type": "Succeed"}}}
+    eng, log = stubs.make_engine(asl)
+    se.json = SizedJson(2)
+    ev = stubs.running_event("T", {"x": 1}, eng=eng)
+    eng.execution_history[stubs.EX_ARN] = SizedList(n)
+    eng.notify(ev, "id1")
+    if n + 1 > L_HIST:
+        return outcome(log) == ("FAILED", "States.ExecutionHistoryLimitExceeded")
+    calls = [l for l in log if l[0] == "execute_task"]
+    return len(calls) == 1 and not [l for l in log if l[0] == "broadcast"]
